@@ -78,7 +78,14 @@ def validate_program_outputs(pid, results, sources, out, tag, trace_cfg, trace_m
                 f.write(json.dumps({"e": "reset", "script": name, "bindings": ["gen"]}) .replace(" ", "") + "\n")
                 f.write(json.dumps({"e": "compile_failed", "msg": text[-600:]}) + "\n")
                 continue
-            lines = [ln for ln in text.splitlines() if ln.startswith("{")]
+            lines = []
+            for ln in text.splitlines():
+                if ln.startswith("{"):
+                    try:
+                        json.loads(ln)
+                    except ValueError:     # a program that dies leaves a cut line behind (block-buffered stdout)
+                        ln = json.dumps({"e": "garbled", "text": ln[:200]})
+                    lines.append(ln)
             if not lines or not lines[0].startswith('{"e":"reset"'):
                 f.write('{"e":"reset","script":"%s","bindings":["gen"]}\n' % name)
             f.write("\n".join(lines) + "\n")
